@@ -131,10 +131,25 @@ def c16():
     nrand = 600 if thorough else 80
     scripts += ["\n".join(H.random_history(_seed_of(chk, i), 300 if thorough else 120)) for i in range(nrand)]
     scripts += ["\n".join(H.random_history(_seed_of(chk, 9000 + i), 120, faults=True)) for i in range(nrand // 4)]
+    # allocation-failure enumeration: the n-th allocation request of one public call fails (ledger knob)
+    scripts += _alloc_failure_scripts(thorough)
     v, files = _run_hist(chk, scripts, "C16", ["C16", "C17 failed backend operation left", "fault"])
+    # ledger rules on the code paths of every tolerated erasure pattern (each decode path allocates differently):
+    # all |E| < hd sets of every third XOR table and of small RS / ISA-L shapes, aligned and unaligned inputs
+    sw = []
+    for ti, (k, m, hd) in enumerate(XOR_TABLES[(chk.seed % 3)::3] if not thorough else XOR_TABLES):
+        sw.append(sweep_cmd(BE_XOR, k, m, hd, 1 + ti % 2, len_classes(BE_XOR, k)[4], _seed_of(chk, 400 + ti), 0, min(hd, m), 10**9 if hd - 1 <= 3 else 3000, 1 | 2 | 8 | 16))
+    for be in (BE_RS, BE_ISAL_VAND, BE_ISAL_CAUCHY):
+        for (k, m) in rs_shapes(8 if thorough else 6):
+            sw.append(sweep_cmd(be, k, m, m, 2, len_classes(be, k)[5], _seed_of(chk, 500 + k * 9 + m), 0, k + m, 10**9, 1 | 2 | 8 | 16))
+    fs, es, rs_ = run_sweeps("asan", sw, "C16-sweep")
+    vs = validate("TraceCodes", fs)
+    _collect(chk, vs, ["C16", "fault"])
+    cs = vs.counts or [0] * 12
+    chk.parts.update({"sweep_decode_events_with_ledger_rules": cs[1], "sweep_reconstruct_events_with_ledger_rules": cs[5]})
     _join(m1)
     c = v.counts or [0] * 16
-    chk.cov["distinct_nontrivial"] = c[6] + c[3] + c[5]
+    chk.cov["distinct_nontrivial"] = c[6] + c[3] + c[5] + cs[1] + cs[5]
     chk.parts.update({"histories": c[1], "calls_with_ledger_rules": c[6] + c[3] + c[5], "failing_calls": c[7], "injected_backend_failures": c[8],
                       "random_histories": nrand})
     chk.sample({"script": H.random_history(_seed_of(chk, 0), 40)[:30]})
@@ -146,6 +161,37 @@ def c16():
         "handed out; calls that hand out nothing: delta 0; quiescent points: baseline) and R6 (no free of a pointer the library does "
         "not own); non-trivial = events subject to a ledger rule" % (8 if thorough else 6, nrand),
         ["TLC", "allocation ledger (-D redirected malloc/free)", "ASan"], exhaustive=False)
+
+
+def _alloc_failure_scripts(thorough):
+    out = []
+    cfgs = [(BE_RS, 4, 2, 2, 16), (BE_XOR, 5, 5, 3, 32), (BE_ISAL_VAND, 4, 2, 2, 8)] + ([(BE_RS, 10, 4, 4, 16), (BE_XOR, 6, 6, 4, 32), (BE_ISAL_CAUCHY, 3, 2, 2, 8)] if thorough else [])
+    for (be, k, m, hd, w) in cfgs:
+        n = k + m
+        miss0 = [x for x in range(n) if x != 0]
+        idx = " ".join(map(str, miss0))
+        ops = {
+            "create": ("create 2 %d %d %d %d %d 2" % (be, k, m, hd, w), 14),
+            "encode": ("encode s1 2 %d 12 0 0" % (3 * align(be, k) + 1), n + 8),
+            "decode": ("decode s1 1 1 0 -100 0 0 %d %s" % (len(miss0), idx), 16),
+            "decode_forced": ("decode s1 1 1 1 -100 0 0 %d %s" % (len(miss0), idx), 18),
+            "recon": ("recon s1 1 0 0 -100 0 0 %d %s" % (len(miss0), idx), 16),
+            "needed": ("needed s1 0 1 0 1 %d" % (n - 1), 8),
+        }
+        for name, (cmd, top) in ops.items():
+            for nth in range(1, top + 1):
+                s = ["reset", "create 1 %d %d %d %d %d 2" % (be, k, m, hd, w), "encode s1 1 %d 11 0 0" % (5 * align(be, k) + 3),
+                     "failalloc %d" % nth, cmd]
+                if name.startswith("decode"):
+                    s.append("dec_cleanup s1 1 0")
+                if name == "encode":
+                    s.append("enc_cleanup s1 2 0")
+                if name == "create":
+                    s.append("destroy s2")
+                # afterwards everything still works
+                s += ["decode s1 1 2 0 -100 0 0 %d %s" % (len(miss0), idx), "dec_cleanup s1 2 0", "enc_cleanup s1 1 0", "destroy s1", "probe"]
+                out.append("\n".join(s))
+    return out
 
 
 def c13():
